@@ -32,6 +32,11 @@ func drawCfg(t *Tape, o cfgOpts) ServerCfg {
 	if t.Chance(1, 2) {
 		c.UTF8, c.BinaryMIME, c.DSN, c.RRVS = t.Bool(), t.Bool(), t.Bool(), t.Bool()
 	}
+	if o.allowTLS && t.Chance(1, 8) {
+		// the whole conversation runs inside implicit TLS: another reader stack
+		// (crypto/tls records) between the transport and the protocol reader
+		c.TLS = tlsImplicit
+	}
 	return c
 }
 
